@@ -10,7 +10,7 @@ mod term;
 use engine::*;
 
 fn registry() -> Vec<Box<dyn Prop>> {
-    vec![Box::new(props::cong::Cong { sound: true }), Box::new(props::cong::Cong { sound: false }), Box::new(props::inv::Inv), Box::new(props::group::GroupProp), Box::new(props::slotmap::SlotMapProp), Box::new(props::slots::SlotsProp), Box::new(props::shapes::ShapesProp), Box::new(props::parse::ParseProp), Box::new(props::canon::CanonProp), Box::new(props::order::OrderProp), Box::new(props::mono::MonoProp), Box::new(props::equiv::EquivProp), Box::new(props::extract::ExtractProp), Box::new(props::matches::MatchProp), Box::new(props::rewrite::RewriteProp), Box::new(props::analysis::AnalysisProp), Box::new(props::saturate::SaturateProp), Box::new(props::fires::FiresProp)]
+    vec![Box::new(props::cong::Cong { sound: true }), Box::new(props::cong::Cong { sound: false }), Box::new(props::inv::Inv), Box::new(props::group::GroupProp), Box::new(props::slotmap::SlotMapProp), Box::new(props::slots::SlotsProp), Box::new(props::shapes::ShapesProp), Box::new(props::parse::ParseProp), Box::new(props::canon::CanonProp), Box::new(props::order::OrderProp), Box::new(props::mono::MonoProp), Box::new(props::equiv::EquivProp), Box::new(props::extract::ExtractProp), Box::new(props::matches::MatchProp), Box::new(props::rewrite::RewriteProp), Box::new(props::analysis::AnalysisProp), Box::new(props::saturate::SaturateProp), Box::new(props::fires::FiresProp), Box::new(props::explain::ExplainProp)]
 }
 
 fn find_prop(id: &str) -> Box<dyn Prop> {
